@@ -42,6 +42,15 @@ def cell_values(dtype, n, rng, mode="distinct"):
     dt = np.dtype(dtype)
     if dt.kind == "b":
         return np.array([bool(rng.getrandbits(1)) for _ in range(n)], dtype=dt)
+    if mode == "rare":
+        # rare values WITH repeats: NaN / infinities / signed zeros / magnitudes that do not add up exactly; dtype extremes and
+        # values whose sums leave the 64-bit range
+        if dt.kind == "f":
+            pool = [float("nan"), float("inf"), float("-inf"), -0.0, 0.0, 1.0, 2.5, 1e16, -1e16, 1e-3, 0.7]
+            return np.array([rng.choice(pool) for _ in range(n)], dtype=dt)
+        info = np.iinfo(dt)
+        pool = [info.min, info.max, info.max // 2 + 1, 0, 1, 2, 3] + ([-1] if dt.kind == "i" else [])
+        return np.array([rng.choice(pool) for _ in range(n)], dtype=dt)
     if mode == "small":
         hi = 5
         if dt.kind == "f":
